@@ -49,6 +49,8 @@ def run(tier, acc):
     acc.violations += cc.records("C02", res, cs, KINDS)
     res, cs = cc.drive(acc, "core", n // 2, 3, "core", ALL)
     acc.violations += cc.records("C02", res, cs, KINDS)
+    res, cs = cc.drive(acc, "cse", n // 2, 3, "cse", ALL)
+    acc.violations += cc.records("C02", res, cs, KINDS)
     acc.violations += shipped(acc)
     res, cs = cc.drive(acc, "ladder", 10 if tier == "quick" else 100, 2, "ladder", ALL)
     acc.violations += cc.records("C02", res, cs, KINDS)
